@@ -191,8 +191,6 @@ theorem AgreeCore_congr {s s' : NodeSt} (hr : s'.remote = s.remote) (hs : s'.str
   tags := fun st hst tag => by
     have := h.tags st (by rw [← hp]; exact hst) tag
     simpa [Reg_congr hs] using this
-  inPool := fun sid sp p hreg => by
-    rw [hp]; exact h.inPool sid sp p ((Reg_congr hs sid sp p).mp hreg)
   validReg := fun sid sp p hreg => h.validReg sid sp p ((Reg_congr hs sid sp p).mp hreg)
 
 theorem Agree_congr {s s' : NodeSt} (hr : s'.remote = s.remote) (hs : s'.streams = s.streams)
@@ -210,7 +208,6 @@ theorem Agree_empty (a b c : Nat) : ({ capSpace := a, capStream := b, burst := c
   trieLive := by intro sp t h; simp at h
   trieHas := by rintro sid sp p ⟨r, h, _⟩; simp at h
   tags := by intro st h; simp at h
-  inPool := by rintro sid sp p ⟨r, h, _⟩; simp at h
   validReg := by rintro sid sp p ⟨r, h, _⟩; simp at h
 
 theorem poolStream_none_iff (s : NodeSt) (sid : Nat) :
@@ -218,7 +215,7 @@ theorem poolStream_none_iff (s : NodeSt) (sid : Nat) :
   simp [NodeSt.poolStream, List.find?_eq_none]
 
 theorem Agree_openStream {s : NodeSt} (h : s.Agree) (sid : Nat) (peer ident : String)
-    (hf : s.poolStream sid = none) : (s.openStream sid peer ident).Agree where
+    (hf : s.poolStream sid = none) (hr : alookup sid s.streams = none) : (s.openStream sid peer ident).Agree where
   poolNodup := by
     have hf' := (poolStream_none_iff s sid).mp hf
     simp only [NodeSt.openStream, List.map_append, List.map_cons, List.map_nil]
@@ -240,13 +237,9 @@ theorem Agree_openStream {s : NodeSt} (h : s.Agree) (sid : Nat) (peer ident : St
     · exact h.tags st hst tag
     · subst hst
       simp only [List.not_mem_nil, false_iff]
-      rintro ⟨sp, p, hreg, _⟩
-      obtain ⟨st, hst, hsid⟩ := h.inPool sid sp p hreg
-      exact (poolStream_none_iff s sid).mp hf st hst hsid
-  inPool := by
-    intro sid' sp p hreg
-    obtain ⟨st, hst, hsid⟩ := h.inPool sid' sp p hreg
-    exact ⟨st, by simp [NodeSt.openStream, hst], hsid⟩
+      rintro ⟨sp, p, ⟨r, hl, _⟩, _⟩
+      have hl' : alookup sid s.streams = some r := hl
+      rw [hr] at hl'; cases hl'
   validReg := h.validReg
 
 /-- a kept record registers something -/
@@ -292,13 +285,14 @@ theorem clean_of_no_reg {s : NodeSt} (ha : s.Agree) (hw : ∀ sid sp p, ¬ s.Reg
 theorem fanout_spec (s : NodeSt) (h : s.Agree) (space topic : String) :
     (s.fanout space topic).Nodup ∧
     ∀ sid, sid ∈ s.fanout space topic ↔
-      ∃ p, s.Reg sid space p ∧ segMatches (splitTopic p) (splitTopic topic) = true := by
+      ((∃ st, st ∈ s.pool ∧ st.sid = sid) ∧
+        ∃ p, s.Reg sid space p ∧ segMatches (splitTopic p) (splitTopic topic) = true) := by
   simp only [NodeSt.fanout, NodeSt.getTrie]
   cases ht : alookup space s.remote with
   | none =>
     refine ⟨by simp, fun sid => ?_⟩
     simp only [List.not_mem_nil, false_iff]
-    rintro ⟨p, hr, _⟩
+    rintro ⟨_, p, hr, _⟩
     obtain ⟨t, ht'⟩ := h.trieHas sid space p hr
     rw [ht] at ht'; cases ht'
   | some t =>
@@ -308,7 +302,7 @@ theorem fanout_spec (s : NodeSt) (h : s.Agree) (space topic : String) :
     · rename_i hemp
       refine ⟨by simp, fun sid => ?_⟩
       simp only [List.not_mem_nil, false_iff]
-      rintro ⟨p, hr, hm⟩
+      rintro ⟨_, p, hr, hm⟩
       have : p ∈ t.matchTopic topic := (hme p).mpr ⟨(h.toAgreeCore.count_pos_iff ht p).mpr ⟨sid, hr⟩, hm⟩
       simp [List.isEmpty_iff] at hemp
       rw [hemp] at this; simp at this
@@ -323,10 +317,9 @@ theorem fanout_spec (s : NodeSt) (h : s.Agree) (space topic : String) :
         have := interestTag_inj (h.validReg _ _ _ hr') (h.validReg _ _ _ hr'') heq
         obtain ⟨rfl, rfl⟩ := this
         subst hsid
-        exact ⟨p', hr'', hm⟩
-      · rintro ⟨p, hr, hm⟩
+        exact ⟨⟨st, hst, rfl⟩, p', hr'', hm⟩
+      · rintro ⟨⟨st, hst, hsid⟩, p, hr, hm⟩
         have hp : p ∈ t.matchTopic topic := (hme p).mpr ⟨(h.toAgreeCore.count_pos_iff ht p).mpr ⟨sid, hr⟩, hm⟩
-        obtain ⟨st, hst, hsid⟩ := h.inPool sid space p hr
         subst hsid
         exact ⟨interestTag space p, List.mem_map.mpr ⟨p, hp, rfl⟩, st, hst,
           (h.tags st hst _).mpr ⟨space, p, hr, rfl⟩, rfl⟩
@@ -537,7 +530,7 @@ theorem Agree_evict {s : NodeSt} (hc : s.AgreeCore) (space : String) (evict : St
     have := countP_split (fun e : Nat × StreamRec => e.2.has space p) (hitP space evict) s.streams
     omega
   refine { poolNodup := ?_, streamsNodup := ?_, recOK := ?_, trieReach := ?_, trieCount := ?_,
-           trieLive := ?_, tags := ?_, inPool := ?_, validReg := ?_, trieHas := ?_ }
+           trieLive := ?_, tags := ?_, validReg := ?_, trieHas := ?_ }
   · -- poolNodup
     rw [hpool, List.map_map]
     have : ((fun st : PoolStream => st.sid) ∘ fun st : PoolStream =>
@@ -654,11 +647,6 @@ theorem Agree_evict {s : NodeSt} (hc : s.AgreeCore) (space : String) (evict : St
           exact ⟨sp, p, (Reg_evict hc space evict st.sid sp p).mpr ⟨r, hl0, hp, fun h => hh h.2⟩, rfl⟩
         · rintro ⟨sp, p, hreg, rfl⟩
           exact ⟨sp, p, Reg_of_Reg_evict hc hreg, rfl⟩
-  · -- inPool
-    intro sid sp p hreg
-    obtain ⟨st, hst, hs⟩ := hc.inPool sid sp p (Reg_of_Reg_evict hc hreg)
-    rw [hpool]
-    exact ⟨_, List.mem_map.mpr ⟨st, hst, rfl⟩, by rw [hsid st]; exact hs⟩
   · -- validReg
     intro sid sp p hreg
     exact hc.validReg sid sp p (Reg_of_Reg_evict hc hreg)
@@ -734,7 +722,6 @@ theorem Agree_closeSpace {s : NodeSt} (h : s.Agree) (space : String) : (s.closeS
         · cases ht
         · exact h.trieLive sp t ht
       tags := h.tags
-      inPool := h.inPool
       validReg := h.validReg }
   refine Agree_evict hc space (fun _ => true) ?_ (Or.inr (fun _ _ _ _ => rfl))
   intro sid sp p hr hne
@@ -786,43 +773,38 @@ theorem alookup_foldl_stepClose (bs : List (String × List String)) (hn : (bs.ma
     · have h' : ¬ sp = sp0 := fun hh => h hh.symm
       simp only [alookup, h, if_false, alookup_stepClose, h']
 
-theorem closeStream_unfold (s : NodeSt) (sid : Nat) :
-    s.closeStream sid =
-      match alookup sid s.streams with
-      | none => { s with pool := s.pool.filter (·.sid ≠ sid) }
-      | some r => { s with pool := s.pool.filter (·.sid ≠ sid),
-                           remote := r.bySpace.foldl stepClose s.remote,
-                           streams := aerase sid s.streams } := by
-  simp only [NodeSt.closeStream]
-  cases alookup sid s.streams <;> rfl
+theorem Agree_poolRemove {s : NodeSt} (h : s.Agree) (sid : Nat) : (s.poolRemove sid).Agree := by
+  have hfilter : ∀ st, st ∈ s.pool.filter (·.sid ≠ sid) → st ∈ s.pool := by
+    intro st hst; exact (List.mem_filter.mp hst).1
+  exact {
+    poolNodup := List.Nodup.sublist (List.Sublist.map _ List.filter_sublist) h.poolNodup
+    streamsNodup := h.streamsNodup
+    recOK := h.recOK
+    trieReach := h.trieReach
+    trieCount := h.trieCount
+    trieLive := h.trieLive
+    trieHas := h.trieHas
+    validReg := h.validReg
+    tags := fun st hst tag => h.tags st (hfilter st hst) tag }
 
-theorem Agree_closeStream {s : NodeSt} (h : s.Agree) (sid : Nat) : (s.closeStream sid).Agree := by
-  rw [closeStream_unfold]
-  have hfilter : ∀ st, st ∈ s.pool.filter (·.sid ≠ sid) ↔ st ∈ s.pool ∧ st.sid ≠ sid := by
-    intro st; simp [List.mem_filter]
-  have hpn : ((s.pool.filter (·.sid ≠ sid)).map (·.sid)).Nodup :=
-    List.Nodup.sublist (List.Sublist.map _ List.filter_sublist) h.poolNodup
+theorem not_mem_pool_poolRemove (s : NodeSt) (sid : Nat) : ∀ st, st ∈ (s.poolRemove sid).pool → st.sid ≠ sid := by
+  intro st hst
+  have := (List.mem_filter.mp hst).2
+  simpa using this
+
+theorem onStreamClose_unfold (s : NodeSt) (sid : Nat) (r : StreamRec) (hl : alookup sid s.streams = some r) :
+    s.onStreamClose sid =
+      { s with remote := r.bySpace.foldl stepClose s.remote, streams := aerase sid s.streams } := by
+  simp only [NodeSt.onStreamClose, hl]
+  rfl
+
+/-- the close hook of a stream the pool has already dropped keeps the invariant -/
+theorem Agree_onStreamClose {s : NodeSt} (h : s.Agree) (sid : Nat)
+    (hnp : ∀ st, st ∈ s.pool → st.sid ≠ sid) : (s.onStreamClose sid).Agree := by
   cases hl : alookup sid s.streams with
-  | none =>
-    simp only
-    exact {
-      poolNodup := hpn
-      streamsNodup := h.streamsNodup
-      recOK := h.recOK
-      trieReach := h.trieReach
-      trieCount := h.trieCount
-      trieLive := h.trieLive
-      trieHas := h.trieHas
-      validReg := h.validReg
-      tags := fun st hst tag => h.tags st ((hfilter st).mp hst).1 tag
-      inPool := fun sid' sp p hreg => by
-        obtain ⟨st, hst, hs⟩ := h.inPool sid' sp p hreg
-        refine ⟨st, (hfilter st).mpr ⟨hst, ?_⟩, hs⟩
-        intro heq
-        obtain ⟨r, hr, _⟩ := hreg
-        rw [← hs, heq, hl] at hr; cases hr }
+  | none => simpa [NodeSt.onStreamClose, hl] using h
   | some r =>
-    simp only
+    rw [onStreamClose_unfold s sid r hl]
     have hr := h.recOK sid r hl
     have hreg' : ∀ sid' sp p, (∃ r', alookup sid' (aerase sid s.streams) = some r' ∧ p ∈ r'.pats sp) ↔
         (sid' ≠ sid ∧ s.Reg sid' sp p) := by
@@ -859,7 +841,7 @@ theorem Agree_closeStream {s : NodeSt} (h : s.Agree) (sid : Nat) : (s.closeStrea
             cases ht'
             exact ⟨t, rfl, by simp [StreamRec.pats, hb], by simpa [StreamRec.pats, hb] using hz⟩
     exact {
-      poolNodup := hpn
+      poolNodup := h.poolNodup
       streamsNodup := hsn
       recOK := fun sid' r' hl' => by
         simp only [alookup_aerase] at hl'
@@ -900,18 +882,19 @@ theorem Agree_closeStream {s : NodeSt} (h : s.Agree) (sid : Nat) : (s.closeStrea
             omega
           · exact ⟨_, rfl⟩
       tags := fun st hst tag => by
-        obtain ⟨hst0, hne⟩ := (hfilter st).mp hst
+        have hst0 : st ∈ s.pool := hst
+        have hne := hnp st hst
         rw [h.tags st hst0 tag]
         constructor
         · rintro ⟨sp, p, hreg0, he⟩
           exact ⟨sp, p, (hreg' st.sid sp p).mpr ⟨hne, hreg0⟩, he⟩
         · rintro ⟨sp, p, hreg1, he⟩
           exact ⟨sp, p, ((hreg' st.sid sp p).mp hreg1).2, he⟩
-      inPool := fun sid' sp p hreg => by
-        obtain ⟨hne, hreg0⟩ := (hreg' sid' sp p).mp hreg
-        obtain ⟨st, hst, hs⟩ := h.inPool sid' sp p hreg0
-        exact ⟨st, (hfilter st).mpr ⟨hst, by rw [hs]; exact hne⟩, hs⟩
       validReg := fun sid' sp p hreg => h.validReg sid' sp p ((hreg' sid' sp p).mp hreg).2 }
+
+
+theorem Agree_closeStream {s : NodeSt} (h : s.Agree) (sid : Nat) : (s.closeStream sid).Agree :=
+  Agree_onStreamClose (Agree_poolRemove h sid) sid (not_mem_pool_poolRemove s sid)
 
 /-! ### `pruneStream` / `pruneSpace` after a map write -/
 
@@ -1128,8 +1111,7 @@ theorem Agree_update {s s' : NodeSt} (h : s.Agree) (sid : Nat) (space : String) 
     (hpool_ne : ∀ st', st' ∈ s'.pool → st'.sid ≠ sid → st' ∈ s.pool)
     (hpool_eq : ∀ st', st' ∈ s'.pool → st'.sid = sid → ∀ tag,
         (tag ∈ st'.tags ↔ ∃ sp q, q ∈ rec1.pats sp ∧ tag = interestTag sp q))
-    (hvalid : rec1.pats space ≠ [] → validSpaceId space = true)
-    (hinpool : (∃ sp q, q ∈ rec1.pats sp) → ∃ st, st ∈ s.pool ∧ st.sid = sid) : s'.Agree := by
+    (hvalid : rec1.pats space ≠ [] → validSpaceId space = true) : s'.Agree := by
   have hreg : ∀ sid' sp q, s'.Reg sid' sp q ↔ (if sid' = sid then q ∈ rec1.pats sp else s.Reg sid' sp q) := by
     intro sid' sp q
     simp only [NodeSt.Reg, hs, alookup_pruneStream_aset]
@@ -1258,19 +1240,6 @@ theorem Agree_update {s s' : NodeSt} (h : s.Agree) (sid : Nat) (space : String) 
           have := (hreg st'.sid sp q).mp hq
           simp only [hsd, if_false] at this
           exact ⟨sp, q, this, he⟩
-    inPool := fun sid' sp q hreg1 => by
-      have hmem : sid' ∈ s.pool.map (·.sid) := by
-        have := (hreg sid' sp q).mp hreg1
-        by_cases hsd : sid' = sid
-        · simp only [hsd, if_true] at this
-          obtain ⟨st, hst, hs'⟩ := hinpool ⟨sp, q, this⟩
-          exact List.mem_map.mpr ⟨st, hst, by rw [hs', hsd]⟩
-        · simp only [hsd, if_false] at this
-          obtain ⟨st, hst, hs'⟩ := h.inPool sid' sp q this
-          exact List.mem_map.mpr ⟨st, hst, hs'⟩
-      rw [← hsids] at hmem
-      obtain ⟨st', hst', hs'⟩ := List.mem_map.mp hmem
-      exact ⟨st', hst', hs'⟩
     validReg := fun sid' sp q hreg1 => by
       have := (hreg sid' sp q).mp hreg1
       by_cases hsd : sid' = sid
@@ -1386,18 +1355,15 @@ theorem Agree_handleUnsubscribe {s : NodeSt} (h : s.Agree) (sid : Nat) (space : 
     | cons q qs =>
       have : q ∈ rec1.pats space := by simp [hp]
       exact h.validReg sid space q ⟨rec0, hl, ((R3 space q).mp this).1⟩
-  have hinpool : (∃ sp q, q ∈ rec1.pats sp) → ∃ st, st ∈ s.pool ∧ st.sid = sid := by
-    rintro ⟨sp, q, hq⟩
-    exact h.inPool sid sp q ⟨rec0, hl, ((R3 sp q).mp hq).1⟩
   by_cases hrem : removed.isEmpty = true
   · simp only [hrem, if_true]
     have hrem' : removed = [] := List.isEmpty_iff.mp hrem
-    refine Agree_update h sid space rec1 t1 rfl rfl R1 R2 hother hcount rfl (fun st' hst' _ => hst') ?_ hvalid hinpool
+    refine Agree_update h sid space rec1 t1 rfl rfl R1 R2 hother hcount rfl (fun st' hst' _ => hst') ?_ hvalid
     intro st' hst' hsid tag
     have := key st' hst' hsid tag
     simpa [hrem'] using this
   · simp only [hrem, Bool.false_eq_true, if_false]
-    refine Agree_update h sid space rec1 t1 rfl rfl R1 R2 hother hcount ?_ ?_ ?_ hvalid hinpool
+    refine Agree_update h sid space rec1 t1 rfl rfl R1 R2 hother hcount ?_ ?_ ?_ hvalid
     · simp only [NodeSt.removeTags, List.map_map]
       congr 1
       funext st
@@ -1562,7 +1528,7 @@ theorem Agree_subscribeCore {s : NodeSt} (h : s.Agree) (sid : Nat) (space : Stri
         simp only [hp, this, Bool.false_eq_true, if_false, aset_self hb]
     rw [hrec2, aset_aset]
     refine Agree_update h sid space rec0 t rfl rfl hr0 htr (fun sp _ => hold sp) ?_ rfl (fun st' hst' _ => hst') ?_
-      (fun _ => hv) ?_
+      (fun _ => hv)
     · intro q; rw [htc q, ← hold space]
     · intro st' hst' hsid tag
       rw [h.tags st' hst' tag]
@@ -1572,8 +1538,6 @@ theorem Agree_subscribeCore {s : NodeSt} (h : s.Agree) (sid : Nat) (space : Stri
         rw [hold, hsid.symm, hl]; exact hq
       · rintro ⟨sp, q, hq, he⟩
         exact ⟨sp, q, by rw [hsid]; exact hregs sp q hq, he⟩
-    · rintro ⟨sp, q, hq⟩
-      exact h.inPool sid sp q (hregs sp q hq)
   · have hne : new.isEmpty = false := by
       cases new with
       | nil => exact absurd rfl hnew
@@ -1625,7 +1589,7 @@ theorem Agree_subscribeCore {s : NodeSt} (h : s.Agree) (sid : Nat) (space : Stri
         have h2 := List.find?_some hp
         exact ⟨h1, by simpa using h2⟩
       refine Agree_update h sid space rec1 (t.addAll new) (pruneStream_aset_of_ne _ _ _ htot1).symm
-        (pruneSpace_aset_of_ne _ _ _ hsize).symm hr1 htr' ?_ ?_ ?_ ?_ ?_ (fun _ => hv) (fun _ => ⟨st0, hst0⟩)
+        (pruneSpace_aset_of_ne _ _ _ hsize).symm hr1 htr' ?_ ?_ ?_ ?_ ?_ (fun _ => hv)
       · intro sp hsp; rw [hp1]; simp only [hsp, if_false]; exact hold sp
       · intro q
         rw [hcnt' q, htc q, ← hold space, hp1]
@@ -1676,39 +1640,38 @@ theorem Agree_subscribeCore {s : NodeSt} (h : s.Agree) (sid : Nat) (space : Stri
         intro st hst heq
         have := List.find?_eq_none.mp hp st hst
         simp [heq] at this
-      have hnone : alookup sid s.streams = none := by
-        cases ho : alookup sid s.streams with
-        | none => rfl
-        | some r =>
-          obtain ⟨sp, q, hq⟩ := (h.recOK sid r ho).exists_pat
-          obtain ⟨st, hst, hs⟩ := h.inPool sid sp q ⟨r, ho, hq⟩
-          exact absurd hs (hnopool st hst)
-      have hp0 : ∀ sp, rec0.pats sp = [] := by intro sp; rw [hold, hnone]; rfl
       rw [rollback_eq_unsub space new rec1 (t.addAll new) []]
       obtain ⟨R1, R2, R3, R4, R5⟩ := unsubFold_spec space new rec1 (t.addAll new) [] hr1 htr'
-      generalize new.foldl (unsubStep space) (rec1, t.addAll new, []) = res at R1 R2 R3 R4 R5
+      have R6 := fun sp hne => unsubFold_pats_ne space new rec1 (t.addAll new) [] sp hne
+      generalize new.foldl (unsubStep space) (rec1, t.addAll new, []) = res at R1 R2 R3 R4 R5 R6
       obtain ⟨rec2, t2, removed⟩ := res
-      simp only at R1 R2 R3 R4 R5 ⊢
+      simp only at R1 R2 R3 R4 R5 R6 ⊢
       rw [aset_aset, aset_aset]
-      have hp2 : ∀ sp, rec2.pats sp = [] := by
-        intro sp
-        apply eq_nil_of_forall_not_mem'
-        intro q hq
-        obtain ⟨h1, h2⟩ := (R3 sp q).mp hq
-        rw [hp1, hp0] at h1
-        by_cases hsp : sp = space
-        · simp only [hsp, if_true, List.nil_append] at h1
-          exact h2 ⟨hsp, h1⟩
-        · simp [hsp, hp0] at h1
-      refine Agree_update h sid space rec2 t2 rfl rfl R1 R2 ?_ ?_ rfl (fun st' hst' _ => hst') ?_ (fun _ => hv) ?_
-      · intro sp _; rw [hp2, hnone]; rfl
+      -- the rollback restores exactly what the record held before the frame
+      have hp2 : ∀ q, q ∈ rec2.pats space ↔ q ∈ rec0.pats space := by
+        intro q
+        rw [R3 space q, hp1]
+        simp only [if_true, List.mem_append, true_and]
+        constructor
+        · rintro ⟨h1 | h1, h2⟩
+          · exact h1
+          · exact absurd h1 h2
+        · intro h1; exact ⟨Or.inl h1, fun h2 => (hdis q h2).1 h1⟩
+      refine Agree_update h sid space rec2 t2 rfl rfl R1 R2 ?_ ?_ rfl (fun st' hst' _ => hst') ?_ (fun _ => hv)
+      · intro sp hsp
+        rw [R6 sp hsp, hp1]; simp only [hsp, if_false]; exact hold sp
       · intro q
-        rw [R4 q, hcnt' q, htc q, hp2, hnone, hp1]
-        simp only [if_true, hp0, List.nil_append, Option.elim_none, List.not_mem_nil, if_false, and_self]
-        by_cases h2 : q ∈ new <;> simp [h2]
+        rw [R4 q, hcnt' q, htc q, ← hold space, hp1]
+        have h2 := hp2 q
+        simp only [if_true, List.mem_append]
+        by_cases h1 : q ∈ rec0.pats space
+        · have h3 : ¬ q ∈ new := fun hq => (hdis q hq).1 h1
+          have h4 : q ∈ rec2.pats space := h2.mpr h1
+          simp [h1, h3, h4]
+        · have h4 : ¬ q ∈ rec2.pats space := fun hq => h1 (h2.mp hq)
+          by_cases h3 : q ∈ new <;> simp [h1, h3, h4]
       · intro st' hst' hsid
         exact absurd hsid (hnopool st' hst')
-      · rintro ⟨sp, q, hq⟩; rw [hp2] at hq; cases hq
 
 theorem Agree_handleSubscribe {s : NodeSt} (h : s.Agree) (sid : Nat) (peer ident space : String)
     (topics : List String) : (s.handleSubscribe sid peer ident space topics).1.Agree := by
@@ -1725,5 +1688,38 @@ theorem Agree_handleSubscribe {s : NodeSt} (h : s.Agree) (sid : Nat) (peer ident
         · split
           · exact h
           · exact Agree_subscribeCore h sid space topics _ (by simpa using hv)
+
+theorem subscribeCore_pool_sids (s : NodeSt) (sid : Nat) (space : String) (topics : List String) (acct : String) :
+    (s.subscribeCore sid space topics acct).1.pool.map (·.sid) = s.pool.map (·.sid) := by
+  simp only [NodeSt.subscribeCore]
+  split
+  · rfl
+  · simp only [NodeSt.addTags, NodeSt.poolStream]
+    split
+    · rename_i heq
+      split at heq
+      · cases heq
+      · cases heq
+        simp only [List.map_map]
+        congr 1
+        funext st
+        simp only [Function.comp]
+        split <;> rfl
+    · rfl
+
+theorem handleSubscribe_pool_sids (s : NodeSt) (sid : Nat) (peer ident space : String) (topics : List String) :
+    (s.handleSubscribe sid peer ident space topics).1.pool.map (·.sid) = s.pool.map (·.sid) := by
+  simp only [NodeSt.handleSubscribe]
+  split
+  · rfl
+  · split
+    · rfl
+    · split
+      · rfl
+      · split
+        · rfl
+        · split
+          · rfl
+          · exact subscribeCore_pool_sids s sid space topics _
 
 end AnySync.PubSub
